@@ -32,7 +32,9 @@ RULE = ("Hypothesis RuleBasedStateMachine histories (quick 40 / thorough 60 step
     "(p_i distinct primes) coeff/subs/diff w.r.t. each s_j see exactly p_j, solve(E, s_j) returns the model solution; "
     "print_expression/code_str/latex_str of E (in chunks of 3 terms), of a product/quotient equation and of "
     "Sum(b[i], (i, 1, 2)).doit() for a new indexed symbol contain the display names and no SYM/FUN/QTY<n> that is not "
-    "a display name; clone postconditions in the clone rules. One evaluation = one history. Non-trivial = the history holds "
+    "a display name; every function declared with arguments (symbols, or an earlier Function of the history and a symbol) "
+    "printed UNAPPLIED by code_str/latex_str shows no foreign SYM/FUN/QTY<n> and (code) the display name of the function it "
+    "is declared over; clone postconditions in the clone rules. One evaluation = one history. Non-trivial = the history holds "
     ">= 2 objects of the same kind with the same given display name and >= 1 clone with a subscript; distinct by "
     "hash of the executed step list.")
 
@@ -270,9 +272,20 @@ class World:
         return None if nargs is None else list(self.X[:nargs])
 
     def do_function(self, label: int, name: Any, latex: Any, dim: str, assum: dict[str, bool], nargs: Any) -> list[Viol]:
-        o = self.L.Function(name, self._fargs(nargs), self.L.libdim[dim], display_latex=latex, **assum)
+        decl: list[Entry] = []
+        fargs = self._fargs(1 if nargs == "F" else nargs)
+        if nargs == "F":
+            # declared over an earlier function of the world (a function CLASS among the declared arguments) and a symbol
+            prior = [x for x in self.live.values() if x.kind == "function"]
+            nargs = 1
+            if prior:
+                decl, fargs, nargs = [prior[-1]], [prior[-1].obj, self.X[0]], 2
+                self.flags.add("function_declared_over_function")
+        o = self.L.Function(name, fargs, self.L.libdim[dim], display_latex=latex, **assum)
         e = Entry("function", o, named=name is not None, display=name or "", latex="", dim=self.L.moddim[dim],
             assum=assum, nargs=nargs or 1)
+        e.declared = fargs is not None  # type: ignore[attr-defined]
+        e.decl = decl  # type: ignore[attr-defined]
         out = self._creation_checks(e, latex, True)
         self._add(label, e)
         return out
@@ -475,7 +488,7 @@ class World:
     # ---- invariants ----------------------------------------------------------------------------
     def check(self) -> list[Viol]:
         out: list[Viol] = []
-        for part in (self._check_distinct, self._check_scalar_expression, self._check_vector_expression):
+        for part in (self._check_distinct, self._check_scalar_expression, self._check_vector_expression, self._check_unapplied):
             try:
                 out += part()
             except Exception as exc:  # pylint: disable=broad-except
@@ -487,6 +500,32 @@ class World:
                 where = f"{fr.filename.split('symplyphysics/')[-1]}:{fr.name}"
                 out.append((f"exception:{part.__name__.replace('_check_', '')}:{type(exc).__name__}@{where}",
                     f"{type(exc).__name__}: {exc} while evaluating the invariant over live objects"))
+        return out
+
+    def _check_unapplied(self) -> list[Viol]:
+        """A function printed UNAPPLIED (code_str / latex_str show it as name(declared arguments)): display names only."""
+        out: list[Viol] = []
+        for lab, e in self.live.items():
+            if e.kind != "function" or not getattr(e, "declared", False):
+                continue
+            for route, fn, tex in (("code_str", self.L.code_str, False), ("latex_str", self.L.latex_str, True)):
+                text = str(fn(e.obj)).replace("\n", " ")
+                norm = _tex_norm(text) if tex else text
+                allowed: set[str] = set()
+                for x in [e] + list(getattr(e, "decl", [])):
+                    allowed |= set(INTERNAL.findall(_tex_norm(x.latex) if tex else x.display))
+                    if not x.named:
+                        allowed.add(self._internal_name(x))
+                leaked = [n for n in INTERNAL.findall(norm) if n not in allowed]
+                if leaked:
+                    out.append(("print-unapplied:function:internal-name", f"{route} of the unapplied function #{lab} {e.display!r} declared over "
+                        f"{[x.display for x in getattr(e, 'decl', [])] or 'symbols'} shows generated name(s) {leaked}: {text[:120]}"))
+                for x in getattr(e, "decl", []):
+                    # (judged on the code route only: in LaTeX the library shows a declared function argument by its code
+                    # display name re-typeset by SymPy, m_1_1 -> m_{1 1}, which is a display form but not a fixed string)
+                    if x.named and not tex and x.display not in norm:
+                        out.append(("print-unapplied:function:display-missing", f"{route} of the unapplied function #{lab} {e.display!r} lacks the "
+                            f"display name {x.display!r} of the function it is declared over: {text[:120]}"))
         return out
 
     def _things(self) -> list[tuple[str, str, Any]]:
@@ -754,7 +793,7 @@ class World:
                 labels.append("has_unnamed:" + e.kind)
             if e.clone and e.assum:
                 labels.append("clone_assumptions_passed")
-        for f in ("bump_crossing", "garbage", "solve_done", "solve_empty", "sum_doit"):
+        for f in ("bump_crossing", "garbage", "solve_done", "solve_empty", "sum_doit", "function_declared_over_function"):
             if f in self.flags:
                 labels.append(f)
         labels.append("objects=" + ("0-7" if len(self.all) < 8 else "8-15" if len(self.all) < 16 else "16+"))
@@ -777,6 +816,7 @@ def _make_machine(rec: Recorder, kept: dict[str, tuple[str, Any]]) -> Any:
     assum_s = st.sampled_from(ASSUMS)
     sub_s = st.one_of(st.none(), st.sampled_from(SUBSCRIPTS), st.sampled_from(SUBSCRIPTS))
     nargs_s = st.sampled_from([None, 1, 1, 2])
+    fnargs_s = st.sampled_from([None, 1, 1, 2, "F", "F"])
     pick_s = st.integers(0, 10**6)
 
     class Machine(RuleBasedStateMachine):  # type: ignore[misc]
@@ -827,7 +867,7 @@ def _make_machine(rec: Recorder, kept: dict[str, tuple[str, Any]]) -> Any:
             self._do("indexed", name=name, latex=latex, dim=dim, assum=dict(assum))
 
         @precondition(lambda self: self._room())
-        @rule(name=name_s, latex=latex_s, dim=dim_s, assum=assum_s, nargs=nargs_s)
+        @rule(name=name_s, latex=latex_s, dim=dim_s, assum=assum_s, nargs=fnargs_s)
         def function(self, name: Any, latex: Any, dim: str, assum: Any, nargs: Any) -> None:
             self._do("function", name=name, latex=latex, dim=dim, assum=dict(assum), nargs=nargs)
 
